@@ -81,6 +81,7 @@ class Scen:
         self.send_state = "idle"
         self.gates = {}
         self.execno = {}
+        self.close_cancelled_in = set()
         self.seen_our_close = False
         self.peer_close_code = None
         self.peer_close_in_time = False
@@ -190,6 +191,7 @@ class Scen:
 
     async def _do_close(self, who):
         self.close_state = "running"
+        self.close_who = who
         t0 = self.loop.time()
         if self.close_t is None:
             self.close_t = t0
@@ -197,6 +199,7 @@ class Scen:
             r = await self.ws.close()
         except asyncio.CancelledError:
             self.close_state = "cancelled"
+            self.close_cancelled_in.add(who)
             raise
         except Exception as e:  # noqa: BLE001
             self.close_state = f"raised:{type(e).__name__}"
@@ -343,6 +346,8 @@ class Scen:
                 m.append((f"peer.{tok}", lambda tok=tok, q=q: (self.events.pop(0), self._peer_send(tok, q))))
         for j in list(self.loop.exec_jobs)[:2]:
             m.append((f"exec.{self.execno.setdefault(id(j), len(self.execno))}", lambda j=j: self.loop.complete_exec_job(j)))
+        if self.case.get("blocked_writes") and self.out_tr.kernel_full and not self.out_tr.is_closing():
+            m.append(("net.unblock", self.out_tr.flush_kernel))      # the peer reads again
         for name in ("close", "send"):
             g = self.gates.get(name)
             if g is not None and not g.done():
@@ -358,7 +363,7 @@ class Scen:
             q = not self.loop.has_ready() and not self.loop.has_due_timer()
             f.append(("net.drop", lambda q=q: self._drop(q)))
         if "cancel" in fs:
-            for name in ("recv", "close"):
+            for name in ("recv", "close") + (("send",) if self.case.get("blocked_writes") else ()):
                 t = self.tasks.get(name)
                 if t is not None and not t.done():
                     f.append((f"cancel.{name}", lambda t=t, name=name: (setattr(self, "cancelled_" + name, True), setattr(self, "faulted", True), t.cancel())))
@@ -397,6 +402,9 @@ class Scen:
         stk = self.tasks.get("send")
         if stk is not None and not stk.done() and self.gates["send"].done():
             self.P("blocked-forever:send()", "send_str() never returned")
+        # 1b. nobody is cancelled who was not cancelled
+        if any(not getattr(self, "cancelled_close" if who == "closer" else "cancelled_recv", False) for who in self.close_cancelled_in):
+            self.P("spurious-cancellation:close()", f"close() ended with CancelledError though only {[n for n in ('recv', 'send') if getattr(self, 'cancelled_' + n, False)]} had been cancelled")
         # 2. close() returns within the close timeout
         if self.close_dur is not None and self.close_dur > CLOSE_TIMEOUT + 1.0:
             self.P("close-exceeds-timeout", f"close() took {self.close_dur:g}s, close timeout is {CLOSE_TIMEOUT:g}s (peer timeline {case.get('timeline')})")
@@ -498,7 +506,7 @@ def cases(quick):
                         "faults": ["cancel"]})
         # the peer stops reading: a producer is parked in flow control when close() is called
         out.append({"name": f"{side}/o0/blocked-writes/closer", "side": side, "opts": opt_sets[0], "peer": [], "closer": True, "sender": True, "blocked_writes": True,
-                    "faults": ["drop"]})
+                    "faults": ["drop", "cancel"]})
         # chatty peers that never complete the closing handshake: close() must still honour its timeout
         for opts in opt_sets[:2]:
             for tl_name, tl in (("chatty-8s", [(t, "text") for t in (8, 16, 24, 32, 40)]), ("ping-8s", [(t, "ping") for t in (8, 16, 24, 32)]),
